@@ -76,7 +76,14 @@ def sparse_case(rng: random.Random) -> Dict[str, Dict[str, Any]]:
 
 
 def make_case(rng: random.Random, index: int) -> Dict[str, Any]:
-    if index % 2 == 0:
+    if index % 4 == 1:
+        # own-timestamp years interleaved in instant order around new year (a year appears in two blocks)
+        from rpv import families
+
+        hists = {}
+        for asset in ("AAA", "BBB")[: rng.randint(1, 2)]:
+            hists[asset], _ = families.inverted_dates(rng, asset, kinds=("OUT", "OUT", "IN", "INTRA"), at_new_year=True)
+    elif index % 2 == 0:
         hists = sparse_case(rng)
     else:
         hists = cli_histories(rng, rng.randint(1, 3), cli_profile(gap_style=rng.choice(("long", "medium", "boundary")), max_events=rng.choice((8, 14)), min_events=4, tie_prob=0.0, mixed_tz=rng.random() < 0.4))
